@@ -62,11 +62,6 @@ theorem not_lt {a b : LKey} : ¬ a < b ↔ b ≤ a := List.not_lt
 theorem le_refl (a : LKey) : a ≤ a := List.le_refl a
 theorem prefix_le {p m : LKey} (h : p <+: m) : p ≤ m := List.IsPrefix.le h
 
-theorem lt_or_eq_of_le {a b : LKey} (h : a ≤ b) : a < b ∨ a = b := by
-  rcases Nat.lt_trichotomy 0 1 with _ | _ | _ <;>
-  exact (Classical.em (a = b)).elim Or.inr fun hne =>
-    Or.inl (List.not_le.1 fun hba => hne (List.le_antisymm h hba))
-
 /-- two prefixes of the same list are comparable -/
 theorem prefix_total {a b m : LKey} (ha : a <+: m) (hb : b <+: m) : a <+: b ∨ b <+: a := by
   rcases Nat.le_total a.length b.length with h | h
